@@ -287,6 +287,8 @@ func genRequest(rt *rapid.T, host string, connect bool, last bool, allowBig bool
 	if len(r.Body.encode()) > 0 && chance(rt, 30, "expect") {
 		r.Expect = true
 		r.Hdr = append(r.Hdr, line(rt, "Expect", "100-continue"))
+		// half of these clients really withhold the body until "100 Continue" has arrived
+		r.ExpectStrict = chance(rt, 50, "expect-strict")
 	}
 	// shuffle field lines but keep the relative order of equal names
 	shuffleKeepingNameOrder(rt, r.Hdr)
@@ -358,13 +360,18 @@ func genResponse(rt *rapid.T, host string, calm bool, allowBig bool) respPlan {
 		h := sample(rt, respE2EPool, "rh")
 		p.Hdr = append(p.Hdr, line(rt, h.K, h.V))
 	}
-	if p.Status/100 == 3 && p.Status != 304 {
-		locs := []string{"http://" + host + "/moved", "/relative?x=1", "../up", "http://elsewhere.example/x", "https://" + host + "/tls"}
-		if calm {
-			locs = locs[:3]
-		}
-		loc := sample(rt, locs, "loc")
-		p.Hdr = append(p.Hdr, line(rt, "Location", loc))
+	// Location fields: redirects carry zero, one or several of them; 201 (and a few 200) carry one.
+	nloc := 0
+	switch {
+	case p.Status/100 == 3 && p.Status != 304:
+		nloc = sample(rt, []int{1, 1, 1, 1, 0, 2, 2, 3}, "nloc")
+	case p.Status == 201 && chance(rt, 50, "loc-201"), p.Status == 200 && chance(rt, 5, "loc-200"):
+		nloc = 1
+	}
+	// inside a calm stretch nothing may make the end of the connection a matter of choice
+	noElsewhere := calm && (p.Status == 301 || p.Status == 302 || p.Status == 307)
+	for range nloc {
+		p.Hdr = append(p.Hdr, line(rt, "Location", genLocation(rt, host, noElsewhere)))
 	}
 	var tokens []string
 	if chance(rt, 20, "r-keepalive") {
@@ -415,6 +422,14 @@ func genResponse(rt *rapid.T, host string, calm bool, allowBig bool) respPlan {
 		}
 	}
 	p.InterimEarly = rapid.Bool().Draw(rt, "interim-early")
+	// the origin takes its time over the final response (virtual seconds): more often after interim responses
+	delayPct := 8
+	if len(p.Interim) > 0 {
+		delayPct = 45
+	}
+	if chance(rt, delayPct, "final-delay") {
+		p.FinalDelaySec = irange(rt, 1, maxFinalDelaySec, "final-delay-sec")
+	}
 	shuffleKeepingNameOrder(rt, p.Hdr)
 	if !calm && chance(rt, 2, "close-silently") {
 		p.CloseSilently = true
@@ -423,6 +438,37 @@ func genResponse(rt *rapid.T, host string, calm bool, allowBig bool) respPlan {
 		p.TruncateAt = irange(rt, 0, 1<<20, "truncpos") // reduced modulo the length at use
 	}
 	return p
+}
+
+// otherPort returns the same host with another port.
+func otherPort(host string) string {
+	if strings.HasSuffix(host, "]") || !strings.Contains(host, ":") {
+		return host + ":8081"
+	}
+	return host[:strings.LastIndex(host, ":")]
+}
+
+// genLocation draws one Location value: same host (absolute), relative, another host / scheme /
+// port, or something net/url cannot parse.
+func genLocation(rt *rapid.T, host string, noElsewhere bool) string {
+	same := []string{"http://" + host + "/moved", "http://" + host, "http://" + host + "/a?next=http://elsewhere.example/"}
+	rel := []string{"/relative?x=1", "../up", "?page=2", "/a//b", "/r?u=http://elsewhere.example/x", "moved.html"}
+	other := []string{"http://elsewhere.example/x", "http://elsewhere.example/x", "https://" + host + "/tls", "//cdn.elsewhere.example/y",
+		"http://" + host + ".evil.example/", "http://" + otherPort(host) + "/p"}
+	mal := malformedLocs
+	if noElsewhere {
+		other = same
+		mal = []string{"%zz", ":no-scheme", ""}
+	}
+	switch irange(rt, 0, 9, "loc-class") {
+	case 0, 1, 2:
+		return sample(rt, same, "loc")
+	case 3, 4:
+		return sample(rt, rel, "loc")
+	case 5, 6, 7:
+		return sample(rt, other, "loc")
+	}
+	return sample(rt, mal, "loc")
 }
 
 var capPool = []int{0, 0, 0, 0, 1, 2, 64, 4096, 65536}
@@ -571,6 +617,34 @@ func genPlan(rt *rapid.T) *plan {
 		calm := n >= 6 && i < n-2 && !chance(rt, 2, "storm")
 		p.Resps = append(p.Resps, genResponse(rt, host, calm, allowBig))
 	}
+	nbad := len(p.Reqs) - n
+	// a client that withholds its body needs an origin that honours Expect: the script of such a
+	// request answers "100 Continue" as soon as it has the request head
+	for i := range n {
+		r := &p.Reqs[nbad+i]
+		if !r.Expect {
+			r.ExpectStrict = false
+		}
+		if !r.ExpectStrict {
+			continue
+		}
+		rp := &p.Resps[i]
+		if len(rp.Interim) == 0 || rp.Interim[0].Status != 100 {
+			rp.Interim = append([]interimPlan{{Status: 100, Reason: "Continue"}}, rp.Interim...)
+			if len(rp.Interim) > 2 {
+				rp.Interim = rp.Interim[:2]
+			}
+		}
+		rp.InterimEarly = true
+	}
+	// request for another host / CONNECT in the same burst as a request whose response is still
+	// outstanding: the origin delays the response before the special request
+	if special >= 1 && chance(rt, 60, "special-burst") {
+		p.Resps[special-1].FinalDelaySec = irange(rt, 1, maxFinalDelaySec, "burst-delay")
+		if p.Window < 2 {
+			p.Window = irange(rt, 2, 20, "burst-window")
+		}
+	}
 	if p.AuthEnabled {
 		// the body of a request that is going to be rejected must never look like HTTP
 		for i := range p.Reqs {
@@ -598,6 +672,10 @@ func genPlan(rt *rapid.T) *plan {
 		p.OriginIdleSec = sample(rt, []int{60, 5, 30, 600 - 1}, "origin-idle")
 	} else if chance(rt, 5, "client-abort") {
 		p.ClientAbort = irange(rt, 0, max(0, total-1), "abort-at")
+	}
+	// the proxy server behind TLS; client-certificate classes
+	if p.TLS = chance(rt, 35, "tls"); p.TLS {
+		p.ClientCert = sample(rt, []int{certNone, certNone, certNone, certNone, certNone, certValid, certValid, certValid, certMissing, certUntrusted}, "client-cert")
 	}
 	return p
 }
